@@ -25,7 +25,8 @@ RULE = ('random (tree, selector, target, entry point): generated form documents 
         'values, materialised by the bs4 API / html.parser / lxml / html5lib / lxml-xml, targets = document, every kind of '
         'element, detached subtrees (biased to form-structure elements), never-attached elements, and non-Tag objects; '
         'selectors = every pseudo-class of the parser + generated compound/complex selectors; entry points = select, '
-        'select_one, iselect, match, filter, closest (module level and compiled).  Non-trivial = a call that reached the '
+        'select_one, iselect, match, filter, closest (module level, compiled, and compiled objects after a pickle / deepcopy round trip); '
+        'An+B coefficients up to 10^22.  Non-trivial = a call that reached the '
         'matcher on a tree with at least one hostile value; distinct = distinct (selector, entry point, target kind, document '
         'shape hash).')
 ASSUMPTIONS = [
@@ -237,6 +238,16 @@ def run_unit(u):
                 bump('compile_raised')
                 continue
 
+            if compiled and rng.random() < .4:
+                # "every compiled selector": also one that went through pickle or copy.deepcopy
+                import copy
+                import pickle
+                try:
+                    c = pickle.loads(pickle.dumps(c)) if rng.random() < .5 else copy.deepcopy(c)
+                    bump('copied_compiled_objects')
+                except Exception:  # noqa: BLE001 - copying is C15's business
+                    bump('copy_failed')
+
             def call():
                 if compiled:
                     f = getattr(c, op)
@@ -314,11 +325,18 @@ def replay(w):
             for e in els:
                 if e.name in ('legend', 'fieldset', 'form', 'select', 'optgroup', 'option', 'input', 'iframe'):
                     e.extract()
+        import copy
+        import pickle
+        objs = [sv, sv.compile(w['selector'])]
+        objs += [pickle.loads(pickle.dumps(objs[1])), copy.deepcopy(objs[1])]
         for t in targets:
-            st, val = monitors.guarded_call(lambda: (list(getattr(sv, w['op'])(w['selector'], t)) if w['op'] == 'iselect'
-                                                     else getattr(sv, w['op'])(w['selector'], t)))
-            if st != 'ok':
-                bad.append('%s: %r' % (st, val))
+            for o in objs:
+                a = (w['selector'], t) if o is sv else (t,)
+                st, val = monitors.guarded_call(lambda: (list(getattr(o, w['op'])(*a)) if w['op'] == 'iselect' else getattr(o, w['op'])(*a)),
+                                                budget=8.0)
+                if st != 'ok':
+                    bad.append('%s: %r' % (st, val))
+                    break
     if not bad:
         return None
     return dict(w, status_now=sorted(set(bad))[:5])
